@@ -40,7 +40,8 @@ def values_part(ck, tier):
         except Exception as ex:
             ck.violation("GpRegressor raised", {**idn, "error": repr(ex)[:200]}, site="GpRegressor")
             continue
-        acqs = {"ei": ExpectedImprovement(), "ucb": UpperConfidenceBound(kappa=2.0), "maxvar": MaxVariance()}
+        acqs = {"ei": ExpectedImprovement(), "ucb": UpperConfidenceBound(kappa=2.0), "ucb3": UpperConfidenceBound(kappa=3.0),
+                "maxvar": MaxVariance()}
         for a in acqs.values():
             a.update_gp(gp)
         d = len(pb["X"][0])
@@ -52,11 +53,11 @@ def values_part(ck, tier):
             tail += z < -3
             ident = {**idn, "query": p["q"], "z_score": z}
             ck.case((str(idn), str(p["q"])))
-            want = {"ei": SL.value(p["ei"]), "ucb": SL.value(p["ucb"]), "maxvar": G.fr(p["maxvar"])}
+            want = {"ei": SL.value(p["ei"]), "ucb": SL.value(p["ucb"]), "ucb3": SL.value(p["ucb3"]), "maxvar": G.fr(p["maxvar"])}
             wgrad = {"ei": np.array([SL.value(g) for g in p["gei"]]) / want["ei"],        # grad ln EI = grad EI / EI
-                     "ucb": np.array([SL.value(g) for g in p["gucb"]]), "maxvar": np.array([SL.value(g) for g in p["gvar"]])}
+                     "ucb": np.array([SL.value(g) for g in p["gucb"]]), "ucb3": np.array([SL.value(g) for g in p["gucb3"]]), "maxvar": np.array([SL.value(g) for g in p["gvar"]])}
             for name, acq in acqs.items():
-                cname = type(acq).__name__
+                cname = type(acq).__name__ + ("(kappa=3)" if name == "ucb3" else "")
                 try:
                     with np.errstate(all="ignore"):
                         val = float(acq(x))
